@@ -403,6 +403,11 @@ func endToEnd(c *hc.Ctx) error {
 			sent = append(sent, r.Bytes(4*hc.Pick(r, 2, 3, 126, 127, 128, r.Range(2, 300))))
 		}
 		go func() {
+			defer func() {
+				if r := recover(); r != nil {
+					errc <- fmt.Errorf("Write panicked: %v", r)
+				}
+			}()
 			for _, s := range sent {
 				if err := p.cd.Write(ob, &bin.Buffer{Buf: append([]byte{}, s...)}); err != nil {
 					errc <- err
